@@ -436,7 +436,7 @@ func (fx *fnExec) builtinAppend(dst *ssa.Call, c *ssa.CallCommon, args []SV, whe
 		h := fx.heap(fx.st, name, so)
 		nh := fx.freshConst("apph", so)
 		// other arrays unchanged
-		fx.assume(Term{fmt.Sprintf("(forall ((a$q Int)) (! (=> (not (= a$q %s)) (= (select %s a$q) (select %s a$q))) :pattern ((select %s a$q))))", rArr.S, nh.S, h.S, nh.S), SBool})
+		fx.assume(Term{fmt.Sprintf("(forall ((a$q Int) (i$q Int)) (! (=> (not (= a$q %s)) (= (select (select %s a$q) i$q) (select (select %s a$q) i$q))) :pattern ((select (select %s a$q) i$q))))", rArr.S, nh.S, h.S, nh.S), SBool})
 		// old content preserved in the result window
 		fx.assume(Term{fmt.Sprintf("(forall ((i$q Int)) (! (=> (and (<= 0 i$q) (< i$q %s)) (= (select (select %s %s) (+ %s i$q)) (select (select %s %s) (+ %s i$q)))) :pattern ((select (select %s %s) (+ %s i$q)))))",
 			s.Len.S, nh.S, rArr.S, rOff.S, h.S, s.Arr.S, s.Off.S, nh.S, rArr.S, rOff.S), SBool})
@@ -471,7 +471,7 @@ func (fx *fnExec) builtinCopy(dst *ssa.Call, c *ssa.CallCommon, args []SV, where
 			so := fx.heapSortFor("E.", l)
 			h := fx.heap(fx.st, name, so)
 			nh := fx.freshConst("cpyh", so)
-			fx.assume(Term{fmt.Sprintf("(forall ((a$q Int)) (! (=> (not (= a$q %s)) (= (select %s a$q) (select %s a$q))) :pattern ((select %s a$q))))", d.Arr.S, nh.S, h.S, nh.S), SBool})
+			fx.assume(Term{fmt.Sprintf("(forall ((a$q Int) (i$q Int)) (! (=> (not (= a$q %s)) (= (select (select %s a$q) i$q) (select (select %s a$q) i$q))) :pattern ((select (select %s a$q) i$q))))", d.Arr.S, nh.S, h.S, nh.S), SBool})
 			fx.assume(Term{fmt.Sprintf("(forall ((i$q Int)) (! (= (select (select %s %s) i$q) (ite (and (<= %s i$q) (< i$q (+ %s %s))) (select (select %s %s) (+ %s (- i$q %s))) (select (select %s %s) i$q))) :pattern ((select (select %s %s) i$q))))",
 				nh.S, d.Arr.S, d.Off.S, d.Off.S, n.S, h.S, s.Arr.S, s.Off.S, d.Off.S, h.S, d.Arr.S, nh.S, d.Arr.S), SBool})
 			fx.st.heaps[name] = nh
@@ -486,7 +486,7 @@ func (fx *fnExec) builtinCopy(dst *ssa.Call, c *ssa.CallCommon, args []SV, where
 		so := arrSort(SInt, arrSort(SInt, SInt))
 		h := fx.heap(fx.st, name, so)
 		nh := fx.freshConst("cpyh", so)
-		fx.assume(Term{fmt.Sprintf("(forall ((a$q Int)) (! (=> (not (= a$q %s)) (= (select %s a$q) (select %s a$q))) :pattern ((select %s a$q))))", d.Arr.S, nh.S, h.S, nh.S), SBool})
+		fx.assume(Term{fmt.Sprintf("(forall ((a$q Int) (i$q Int)) (! (=> (not (= a$q %s)) (= (select (select %s a$q) i$q) (select (select %s a$q) i$q))) :pattern ((select (select %s a$q) i$q))))", d.Arr.S, nh.S, h.S, nh.S), SBool})
 		fx.assume(Term{fmt.Sprintf("(forall ((i$q Int)) (! (= (select (select %s %s) i$q) (ite (and (<= %s i$q) (< i$q (+ %s %s))) (sat %s (- i$q %s)) (select (select %s %s) i$q))) :pattern ((select (select %s %s) i$q))))",
 			nh.S, d.Arr.S, d.Off.S, d.Off.S, n.S, s.T.S, d.Off.S, h.S, d.Arr.S, nh.S, d.Arr.S), SBool})
 		fx.st.heaps[name] = nh
